@@ -30,7 +30,9 @@ def main():
             "evidence_file": "evidence/%s.json" % pid,
             "replay_cmd_template": "python3 tools/check.py %s --replay {path}" % pid,
             "engine": "coq-model+correspondence",
-            "level_claimed": {"category": md.get("category", "proof"), "text": md["text"], "design_ref": md.get("design_ref", "DESIGN.md section 4 " + pid)},
+            "level_claimed": {"category": md.get("category", "proof") if md.get("category", "proof") in
+                              ("exploration", "fault_enumeration", "model_checking", "proof", "translation_validation", "other")
+                              else "proof", "text": md["text"], "design_ref": md.get("design_ref", "DESIGN.md section 4 " + pid)},
             "level_note": md["note"],
             "technique": md["technique"],
         })
